@@ -67,6 +67,7 @@ def run_property(pid, tier='quick', seed=0, out=sys.stdout):
     mod = importlib.import_module(f'props.{pid}')
     known = [f for f in load_known() if f.get('property') == pid]
     H = Harness(tier)
+    H.property_id = pid
     rng = random.Random(seed)
     faults = []
     # ------------------------------------------------------------------ 1. generate obligations from the real source
